@@ -411,6 +411,12 @@ func TestFixedSpecs(t *testing.T) {
 		"grammar g;\nNUM = /[0-9]+/\nstart = expr;\nexpr = expr ( \"+\" | \"-\" ) expr | expr ( \"*\" | \"/\" ) expr | [ \"-\" \"-\" ] NUM | { \"!\" \"?\" } \"x\";\n",
 		// handles in two levels, several at once
 		"grammar g;\n@left \"+\" \"-\" \"*\"\n@right \"-\" \"+\" \"*\"\n@none \"*\" \"+\"\nstart = start \"+\" start | start \"-\" start | start \"*\" start | \"i\";\n",
+		// in this order: a text that is a pattern in one specification and a string literal in the next one (and the
+		// other way round); the files emitted in this process must equal those of a fresh process
+		"grammar seq_a;\nAS = /a+/\nstart = AS \"b\";\n",
+		"grammar seq_b;\nstart = \"a+\" \"b\";\n",
+		"grammar seq_c;\nstart = \"[0-9]+\" \"x?\";\n",
+		"grammar seq_d;\nNUM = /[0-9]+/\nOPT = /x?y/\nstart = NUM OPT;\n",
 		// several tokens used without definition, several unknown predefined names
 		"grammar g;\nAA = $NOPE\nBB = $NADA\nCC = $NIX\nstart = AA BB CC DD EE FF;\n",
 	}
